@@ -153,6 +153,7 @@ var hostileValues = []string{
 }
 
 var xssFrags = []string{
+	"<a href=\"data:text/html;base64,PHNjcmlwdD5hbGVydCgxKTwvc2NyaXB0Pg&#10;==\">", "<img src=\"data:image/svg+xml;base64,PHN2Zy8+\n\">",
 	"x", " ", "<", ">", "\"", "'", "=", "/", "&lt;", "&#60;", "\x00",
 	"<script>", "</script>", "<SCRIPT SRC=//e.x/x.js>", "<img src=x onerror=alert(1)>", "<svg onload=alert(1)>", "<svg>", "</svg>",
 	"<math>", "<mtext>", "<mglyph>", "<style>", "</style>", "<title>", "</title>", "<textarea>", "</textarea>", "<noscript>", "</noscript>",
